@@ -17,7 +17,7 @@ ASSUMPTIONS = [
 
 
 def run():
-  return tvrun.run_tv('C03', {'rec': (26, 390, None), 'recdeep': (8, 96, None)}, FUNCTIONS, ASSUMPTIONS, 'DESIGN.md §3 C03')
+  return tvrun.run_tv('C03', {'rec': (28, 420, None), 'recdeep': (8, 96, None)}, FUNCTIONS, ASSUMPTIONS, 'DESIGN.md §3 C03')
 
 
 def replay(path):
